@@ -336,6 +336,10 @@ static uint64_t run_op(ThreadCtx &T, const Op &op)
     Shared &S = *T.sh;
     bool use_shared_const = op.u(4) & 1;
     bool tamper = (op.u(4) & 6) == 2;
+    // a quarter of the operations run with this thread's system entropy source failing permanently: failure paths
+    // (zero seeds, status results) must be as free of shared state as the healthy ones
+    bool rng_dead = (op.u(4) & 24) == 8;
+    if (rng_dead) simrng_arm(&T.rng, 0, 1);
     unsigned v = (unsigned)(sd >> 11); // variant selector
     // private inputs
     alignas(64) static __thread uint8_t msg[256], ad[64];
@@ -476,6 +480,7 @@ static uint64_t run_op(ThreadCtx &T, const Op &op)
         --t_in_lib;
         break; }
     }
+    if (rng_dead) simrng_arm(&T.rng, 0, 0);
     uint64_t h = fnv(T.out, std::min<size_t>(clen, sizeof T.out));
     h = fnv(&r, sizeof r, h);
     h = fnv(T.tmp, std::min<size_t>(plen, sizeof T.tmp), h);
@@ -527,7 +532,7 @@ struct ThreadsWorld : World {
             int nops = 1 + (int)r.below(thorough ? 6 : 4);
             for (int i = 0; i < nops; ++i) {
                 int kind = focus >= 0 && r.chance(2, 3) ? focus : (int)r.below(NOPK);
-                pl.add("op", {t, kind, (int64_t)r.pickv({0, 1, 7, 8, 9, 16, 33, 100}), (int64_t)r.pickv({0, 1, 8, 17}), (int64_t)(r.next() >> 1), (int64_t)r.below(8)});
+                pl.add("op", {t, kind, (int64_t)r.pickv({0, 1, 7, 8, 9, 16, 33, 100}), (int64_t)r.pickv({0, 1, 8, 17}), (int64_t)(r.next() >> 1), (int64_t)r.below(32)});
             }
         }
     }
